@@ -111,18 +111,50 @@ def run(ctx):
     ctx.ob("R6.must-pass", "flush-skip-empty|%s:flush_current_page" % CW, P.where(fp.body),
            "a page is skipped only when it holds no values", oke)
     rg = P.fn("carquet_row_group_writer_finalize", RW)
-    loops = [n for n in rg.body.walk() if n.k == "ForStmt"]
-    okl = False
-    if loops:
-        lp = loops[0]
-        cz = Canon(rg, inline=False)
-        okl = "num_columns" in src(lp.c[2]) and lp.c[2].strip().op == "<" and lp.c[3].strip().op == "++" and \
-            any(x.cv == 0 for x in lp.c[0].walk() if x.k == "IntegerLiteral")
-        fin = [c for c in lp.walk() if c.k == "CallExpr" and c.callee == "carquet_column_writer_finalize"]
-        app = [c for c in lp.walk() if c.k == "CallExpr" and c.callee == "carquet_buffer_append"]
-        okl = okl and len(fin) == 1 and len(app) == 1 and rg.cfg.node_dominates(fin[0], app[0])
-    ctx.ob("R6.must-pass", "rowgroup-all-columns|%s:carquet_row_group_writer_finalize" % RW, P.where(rg.body),
-           "row-group finalize finalizes and appends every column 0..num_columns-1", okl)
+    # abstract execution for 0..3 columns (the column finalizer and the buffer append are hooked): every
+    # column is finalized and its bytes appended, in column order; a failing column stops with its error
+    from ..rules import sem
+    wo = sem.field_offsets(P, "carquet_row_group_writer")
+    badr = None
+    try:
+        for N in range(0, 4):
+            for fail_at in [None] + list(range(N)):
+                heap0 = {("w", wo["num_columns"]): N, ("w", wo["column_writers"]): sem.Ptr("cw", 0, 8),
+                         ("w", wo["column_infos"]): sem.Ptr("ci", 0, P.record("carquet_column_info")["size"] if "carquet_column_info" in P.records else 64)}
+                for i in range(N):
+                    heap0[("cw", 8 * i)] = sem.Ptr("col%d" % i, 0, 1)
+
+                def fin(ev, a, it, fail_at=fail_at):
+                    name = getattr(a[0], "base", None)
+                    ev.append(("finalize", name))
+                    idx = int(name[3:]) if isinstance(name, str) and name.startswith("col") else -1
+                    if len(a) > 2:
+                        sem.set_out(it, a[1], sem.Ptr("bytes%d" % idx, 0, 1))
+                        sem.set_out(it, a[2], 1000 + idx)
+                    for o in a[3:]:
+                        sem.set_out(it, o, 7)
+                    return 5 if fail_at == idx else 0
+                args = [sem.Ptr("w", 0, 1), sem.Ptr("data_out", 0, 8), sem.Ptr("size_out", 0, 8), 10]
+                paths = sem.run(P, rg, args, heap0=heap0, single=False, max_forks=64, hooks={
+                    "carquet_column_writer_finalize": fin,
+                    "carquet_buffer_append": lambda ev, a, it: ev.append(("append", getattr(a[1], "base", a[1]), a[2])) or 0,
+                    "carquet_buffer_clear": lambda ev, a, it: 0})
+                upto = N if fail_at is None else fail_at
+                want = []
+                for i in range(upto):
+                    want += [("finalize", "col%d" % i), ("append", "bytes%d" % i, 1000 + i)]
+                if fail_at is not None:
+                    want.append(("finalize", "col%d" % fail_at))
+                for ret, ev, heap in paths:
+                    okp = ev == want and ((fail_at is None and ret == 0) or (fail_at is not None and ret == 5))
+                    if not okp and badr is None:
+                        badr = "%d column(s)%s: %s, returns %s" % (N, "" if fail_at is None else ", column %d fails" % fail_at, ev, ret)
+        ctx.ob("R6.must-pass", "rowgroup-all-columns|%s:carquet_row_group_writer_finalize" % RW, P.where(rg.body),
+               "row-group finalize finalizes every column 0..num_columns-1 in order and appends exactly the bytes each "
+               "returned; a failing column returns its error (0..3 columns x failure position)", badr is None, badr or "")
+    except (sem.Inconclusive, KeyError) as ex:
+        ctx.inconclusive("R6.must-pass", "rowgroup-all-columns|%s:carquet_row_group_writer_finalize" % RW, P.where(rg.body),
+                         "abstract execution of row-group finalize", str(ex))
 
     # ---- (3)
     fns = P.funcs_under("src/writer/") + P.funcs_in("src/encoding/rle.c", PL, "src/core/buffer.c")
